@@ -106,5 +106,95 @@ class RenderedAnnotations(Stream):
                 yield dict(case, og={"pins": pins, "inputs": inputs})
 
 
+class CliInputNames(Stream):
+    """input and constraint files are named in annotations "by the name given on the command line": the real command line
+    with files typed as `./in0.txt`, `sub//in1.txt`, `a/./in2.txt`, plain names, and a constraints file"""
+    name = "cli-input-names"
+    quick_n = 30
+    thorough_n = 1000
+    batch = 10
+    parallel_quick = 4
+
+    SPELLINGS = ["{}", "./{}", "sub//{}", "sub/./{}", ".//{}", "sub/{}"]
+
+    def setup(self):
+        import tempfile
+        self.tmp = tempfile.mkdtemp(prefix="rvc08cli")
+
+    def teardown(self):
+        import shutil
+        shutil.rmtree(getattr(self, "tmp", ""), ignore_errors=True)
+
+    def generate(self, rng):
+        n = rng.randint(1, 3)
+        files = [rng.choice(self.SPELLINGS).format("in%d.txt" % i) for i in range(n)]
+        cons = rng.choice([None, None, "./cons.txt", "cons.txt", "sub//cons.txt"])
+        return {"files": files, "constraints": cons, "shared": rng.random() < 0.5}
+
+    def impl(self, case):
+        import os
+        import re
+        import shutil
+        from rv.core import digest
+        from rv import backends as B
+        from rv.props.c07 import run_inproc
+        GL.reset_caches()
+        d = os.path.join(self.tmp, digest(case))
+        shutil.rmtree(d, ignore_errors=True)
+        os.makedirs(os.path.join(d, "sub"))
+        projs = ["p%d" % i for i in range(len(case["files"]))]
+        wheels = {B.wheel_name(p, "1.0"): B.wheel_bytes(p, "1.0") for p in projs}
+        wheels[B.wheel_name("shared", "1.0")] = B.wheel_bytes("shared", "1.0")
+        B.write_findlinks(os.path.join(d, "links"), wheels)
+        for f, p in zip(case["files"], projs):
+            with open(os.path.join(d, os.path.normpath(f)), "w") as fh:
+                fh.write(p + "\n" + ("shared>=0.5\n" if case["shared"] else ""))
+        extra = []
+        if case["constraints"]:
+            with open(os.path.join(d, os.path.normpath(case["constraints"])), "w") as fh:
+                fh.write("shared<2\np0<9\n")
+            extra = ["--constraints", case["constraints"]]
+        r = run_inproc(d, case["files"], extra=extra)
+        shutil.rmtree(d, ignore_errors=True)
+        ann = {}
+        cur = None
+        for line in r["stdout"].splitlines():
+            m = re.match(r"^([A-Za-z0-9._-]+)==\S+(.*)$", line)
+            if m:
+                cur = m.group(1)
+                ann[cur] = []
+                if "#" in m.group(2):
+                    ann[cur] += [e.strip() for e in m.group(2).split("#", 1)[1].split(",") if e.strip()]
+                continue
+            t = line.strip()
+            if cur and t.startswith("#"):
+                t = t[1:].strip()
+                if t.startswith("via"):
+                    t = t[3:].strip()
+                if t:
+                    ann[cur].append(t)
+        return {"code": r["code"], "annotations": ann}
+
+    def flags(self, case, r):
+        return ["files:%d" % len(case["files"])] + (["constraints-file"] if case["constraints"] else []) + \
+            (["spelled-with-dot-or-double-slash"] if any(f.startswith("./") or "//" in f or "/./" in f for f in case["files"] + [case["constraints"] or ""]) else [])
+
+    def oracle(self, case, r):
+        if r["code"] != 0:
+            return [("C08/cli-input-names-run-fails", r)]
+        fails = []
+        for i, f in enumerate(case["files"]):
+            got = [e.split(" ")[0] for e in r["annotations"].get("p%d" % i, [])]
+            want = [f] + ([case["constraints"]] if (case["constraints"] and i == 0) else [])
+            if sorted(got) != sorted(want):
+                fails.append(("C08/input-file-not-named-as-given", {"pin": "p%d" % i, "given": want, "printed": got}))
+        if case["shared"]:
+            got = sorted(e.split(" ")[0] for e in r["annotations"].get("shared", []))
+            want = sorted(case["files"] + ([case["constraints"]] if case["constraints"] else []))
+            if got != want:
+                fails.append(("C08/input-file-not-named-as-given", {"pin": "shared", "given": want, "printed": got}))
+        return fails[:1]
+
+
 def streams():
-    return [SS.CompileStream("C08"), RenderedAnnotations()]
+    return [SS.CompileStream("C08"), RenderedAnnotations(), CliInputNames()]
